@@ -899,6 +899,10 @@ def gen_mixed(rng, weights=None):
         from gen import metrics as gm
         from sim import orch
         spec, meta = gm.gen_metrics(rng, orch.repo_path())
+    elif c == "Mp":
+        # metrics mode over a partitioned matmul (partitioning statements, hoisting and metrics hooks in one graph)
+        from gen import metrics as gm
+        spec, meta = gm.gen_synth_part(rng)
     else:
         spec, meta = gen_plain(rng)
         meta.update({"part": {}, "syms": {}, "extents": gen_extents(rng, spec), "nlevels": 0, "npart": 0})
